@@ -39,7 +39,13 @@ Progs == <<
   \* a catch variable named like a binding a closure reads
   "(def err [1 2 3]) (def rd (fn [] err)) (def h (try (throw {:code 7}) (catch err (get err :code)))) (trace! (list h err (rd)))",
   "(trace! (let [e [1 2] g (fn [] e) r (try (throw :x) (catch e e))] (list r e (g))))",
-  "(def mk (fn [v] (fn [] v))) (def c1 (mk [1 2 3])) (def c2 (mk (c1))) (def d (conj (c1) 4)) (def e (concat (c2) [5])) (trace! (list (c1) (c2) d e))" >>
+  "(def mk (fn [v] (fn [] v))) (def c1 (mk [1 2 3])) (def c2 (mk (c1))) (def d (conj (c1) 4)) (def e (concat (c2) [5])) (trace! (list (c1) (c2) d e))",
+  \* CODE held as data: quoted forms bound with def / stored in a map, evaluated with eval (several times), looked at again
+  "(def x 7) (def code '`(a ~x ~@(list x x))) (def r1 (eval code)) (def r2 (eval code)) (trace! (list r1 r2 code (first code)))",
+  "(def forms {:q '`[y ~(+ 1 2)] :l '(let [z 1] (if z `(~z) nil)) :t '(try (throw 1) (catch e `(~e)))}) " \o
+  "(def rs (list (eval (get forms :q)) (eval (get forms :l)) (eval (get forms :t)) (eval (get forms :l)))) (trace! rs) (trace! forms)",
+  "(defmacro peek (fn [f] (list 'quote (list (first f) (count f))))) (def use (fn [] (peek `(a b)))) (trace! (list (use) (use) (use)))",
+  "(def body '(do (def k 1) (cond false 1 true (-> k inc)) (and k (or nil k)))) (trace! (list (eval body) (eval body) body))" >>
 
 ASSUME InitRegisters
 
